@@ -46,6 +46,7 @@ type c11One struct {
 }
 
 type c11Batch struct {
+	Full      bool // thorough: the whole stray-code grid
 	InSession bool
 	From, To  int
 	Seed      int64
@@ -62,7 +63,7 @@ func init() {
 			"the reply delivered during the call for command B is a well-formed (and in-session: authentic) response to command A with a distinguishable body long enough to decode as B's; result must be an error or B's own value, and 3..6 follow-up commands must each return their own value; " +
 			"plus loopback-UDP histories in which the simulated BMC really duplicates datagrams into the socket queue; non-trivial = a stray datagram was delivered during a call; distinct = distinct (A, B, pattern, mode)",
 		Assumptions: []string{"strays are responses to a different (NetFn, command); duplicates of the same command cannot be told apart by the statement and are not asserted"},
-		Exhaustive:  func(string) bool { return true },
+		Exhaustive:  func(tier string) bool { return tier == "thorough" },
 		Gen: func(tier string, seed int64) []ev.Case {
 			var cs []ev.Case
 			for f := 0; f < 16*16; f += 16 {
@@ -72,6 +73,12 @@ func init() {
 			nu := 6
 			if tier == "thorough" {
 				nu = 60
+				for i := range cs {
+					var bb c11Batch
+					cs[i].Decode(&bb)
+					bb.Full = true
+					cs[i] = ev.MkCase("batch", bb)
+				}
 				for k := 1; k < 30; k++ {
 					for f := 0; f < 16*16; f += 16 {
 						cs = append(cs, ev.MkCase("batch", c11Batch{InSession: true, From: f, To: f + 16, Seed: seed + int64(k)*997}))
@@ -116,8 +123,8 @@ func c11Exec(run *ev.Run, c ev.Case) {
 			}
 			for pi, p := range c11Patterns {
 				for ci, code := range []byte{0x00, 0xc1, 0xd4, 0xc0, 0xff} {
-					if ci > 0 && (p == "stale-previous" || (idx+pi+ci)%2 == 1) {
-						continue // the stale reply is the real one; halve the error-code grid
+					if ci > 0 && (p == "stale-previous" || (!b.Full && (idx+pi+ci)%2 == 1)) {
+						continue // the stale reply is the real one; the quick tier halves the error-code grid
 					}
 					c11Run(run, c11One{A: a, B: bb, StrayCode: code, Pattern: p, InSession: b.InSession, Suite: (idx + pi) % 9, Follow: 3 + (idx+pi)%4, Seed: b.Seed})
 				}
